@@ -1,6 +1,6 @@
 (* IndexProofs.v — C11, part 1: counting entries of an index and of a property list; the index
    list operations (idx_update / idx_find / idx_remove, remove_first_pair). *)
-From Agdb Require Import Bytes DbValue Graph DbModel DbValueProofs KvProofs KvDbProofs KvSelectProofs.
+From Agdb Require Import Bytes DbValue Graph DbModel DbValueEqProofs KvProofs KvDbProofs KvSelectProofs.
 From Coq Require Import ZifyBool ZifyNat ZifyN.
 Open Scope Z_scope.
 
